@@ -2,7 +2,7 @@
 import json, os
 HERE = os.path.dirname(os.path.abspath(__file__))
 VERIF = os.path.dirname(HERE)
-levels = json.load(open(os.path.join(HERE, "levels.json")))
+levels = {f[:-5]: json.load(open(os.path.join(HERE, "levels", f))) for f in os.listdir(os.path.join(HERE, "levels")) if f.endswith(".json")}
 props = [json.loads(l) for l in open(os.path.join(VERIF, "properties.jsonl"))]
 checks, na = [], []
 for p in props:
